@@ -144,10 +144,19 @@ Definition kp_c07 (cs : case) : list (nat * N) :=
       end
   end.
 
+(** with a failed stream only the safety clause (tag 2) is judged *)
+Definition kp_c07_faulty (cs : case) : list (nat * N) :=
+  match c_acl cs, c_user cs with
+  | Some tbl, Some u =>
+      if has_acl_step (c_ops cs) then dyn_from u tbl false 0 (c_ops cs) (c_obs cs) (c_obs2 cs)
+      else denied_from (allow_of tbl u) 0 (c_obs cs)
+  | _, _ => []
+  end.
+
 Definition check_case (cs : case) : list (nat * N) :=
   model_check (acfg cs) cs (c_obs cs) (c_status cs) (Some (c_final cs))
-  ++ model_check NoACL cs (c_obs2 cs) (c_status2 cs) None
-  ++ kp_c07 cs.
+  ++ model_check_normal NoACL cs (c_obs2 cs) (c_status2 cs) None   (* the reference run has no fault *)
+  ++ (if faulty cs then kp_c07_faulty cs else kp_c07 cs).
 
 Fixpoint check_all_from (i : nat) (cs : list case) : list (nat * nat * N) :=
   match cs with
